@@ -37,6 +37,9 @@ type Case struct {
 
 func gen(t *rapid.T) Case {
 	doc := specgen.ModelSpec(t, specgen.ModelOpts{Name: specgen.PlainName, Composite: true})
+	if rapid.IntRange(0, 2).Draw(t, "nparrays") == 0 {
+		addNamedPrimitiveArrays(t, doc)
+	}
 	c := Case{Spec: specgen.JSONBytes(doc)}
 	defs, _ := doc["definitions"].(J)
 	names := make([]string, 0, len(defs))
@@ -76,6 +79,65 @@ func gen(t *rapid.T) Case {
 		}
 	}
 	return c
+}
+
+// addNamedPrimitiveArrays adds named primitive definitions whose constraints exclude the zero value of their type and
+// arrays referring to them from items (top level, property, nested array, required or not): a zero-valued item is
+// invalid and must be reported like any other (the zero-value tolerance of schemas.md is about properties only).
+func addNamedPrimitiveArrays(t *rapid.T, doc J) {
+	defs, _ := doc["definitions"].(J)
+	if defs == nil || defs["Npholder"] != nil {
+		return
+	}
+	prims := []J{
+		{"type": "string", "minLength": 1 + rapid.IntRange(0, 2).Draw(t, "np_minlen"), "maxLength": 6},
+		{"type": "integer", "minimum": 1 + rapid.IntRange(0, 3).Draw(t, "np_min"), "maximum": 20},
+		{"type": "string", "enum": []any{"red", "green"}},
+		{"type": "number", "minimum": 0, "exclusiveMinimum": true},
+		{"type": "integer", "enum": []any{3, 5}},
+		{"type": "string", "pattern": "^[a-z]+$"},
+	}
+	var names []string
+	for i, p := range prims {
+		if rapid.IntRange(0, 1).Draw(t, fmt.Sprintf("np_has%d", i)) == 0 {
+			continue
+		}
+		n := fmt.Sprintf("Nprim%d", i)
+		if defs[n] != nil {
+			continue
+		}
+		defs[n] = p
+		names = append(names, n)
+	}
+	if len(names) == 0 {
+		defs["Nprim0"] = prims[0]
+		names = []string{"Nprim0"}
+	}
+	props := J{}
+	var req []any
+	for i, n := range names {
+		ref := J{"$ref": "#/definitions/" + n}
+		if defs["Nparr"+n] == nil {
+			defs["Nparr"+n] = J{"type": "array", "items": ref}
+		}
+		pn := fmt.Sprintf("list%d", i)
+		switch rapid.IntRange(0, 2).Draw(t, fmt.Sprintf("np_shape%d", i)) {
+		case 0:
+			props[pn] = J{"type": "array", "items": ref}
+		case 1:
+			props[pn] = J{"type": "array", "items": J{"type": "array", "items": ref}}
+		default:
+			props[pn] = J{"$ref": "#/definitions/Nparr" + n}
+		}
+		if rapid.Bool().Draw(t, fmt.Sprintf("np_req%d", i)) {
+			req = append(req, pn)
+		}
+	}
+	h := J{"type": "object", "properties": props}
+	if len(req) > 0 {
+		h["required"] = req
+	}
+	defs["Npholder"] = h
 }
 
 var reNum = regexp.MustCompile(`-?[0-9]+(\.[0-9]+)?`)
@@ -332,6 +394,11 @@ func check(c Case) (o pbt.Outcome) {
 				sig = "C02|gen-accepts-invalid|region:property-with-allOf"
 			case endsInRefToPrimitive(origRoot, in.Def, firstRefErr):
 				sig = "C02|gen-accepts-invalid|region:ref-to-primitive-definition-below-top-level"
+				if lastStepIsItem(firstRefErr) {
+					// the listed region is map values and properties of nested anonymous objects; array items that
+					// refer to a named primitive are validated by the unchanged tree and get a signature of their own
+					sig = fmt.Sprintf("C02|gen-accepts-invalid|ref-to-primitive-definition-as-array-item|%s|%s", kw, mut)
+				}
 			case kw == "format" && (mut == "zero" || strings.HasPrefix(mut, "add-zero-") || mut == "valid-by-construction" || mut == "empty-array"):
 				sig = "C02|gen-accepts-invalid|format|empty-string"
 			case kw == "format":
@@ -444,6 +511,16 @@ func traversesInlineAllOf(root J, s J, errPath string) bool {
 		}
 	}
 	return depth > 0 && cur["allOf"] != nil
+}
+
+// lastStepIsItem: the violated position (path before the message) ends in an array index.
+func lastStepIsItem(errPath string) bool {
+	p := errPath
+	if i := strings.LastIndex(p, ": "); i >= 0 {
+		p = p[:i]
+	}
+	ms := rePathTok.FindAllStringSubmatch(strings.TrimPrefix(p, "body"), -1)
+	return len(ms) > 0 && ms[len(ms)-1][2] != ""
 }
 
 // endsInRefToPrimitive: the violated position is a map value, array item or nested
